@@ -11,7 +11,14 @@ def value_gen(rng):
         v = c08.gen_value(rng, kinds=VALUE_KINDS)
         if v is not None and not c08.causes(v) and c08.impl_encode(v, True)[0] == "ok": return v
     return None
-def value_xml(v): return v.xml_encode(include_xmlns=True)
+def value_xml(v):
+    """the Value text of a generated document.  Finite floats are written by the harness itself (repr): the documents under test must not
+    depend on the state of the implementation's own encoder (memoised encoders made -0.0 and 0.0 the same input)"""
+    import math
+    name = type(v).__name__
+    if name in ("UADouble", "UAFloat") and isinstance(v.value, float) and math.isfinite(v.value):
+        return '<%s xmlns="http://opcfoundation.org/UA/2008/02/Types.xsd">%r</%s>' % (name[2:], v.value, name[2:])
+    return v.xml_encode(include_xmlns=True)
 
 def key_of_nid(nid, namespaces):
     ns = int(nid[0])
@@ -165,9 +172,11 @@ def oracle_c04(out):
             if c == [] or lk[int(c[0])] != x: fails.append(("C04/reference-id-wrong", "%r" % (x,)))
     return fails
 
-def make_case(rng, quick):
+def make_case(rng, quick, size=None):
     wide = rng.random() < 0.08      # many namespaces: two-digit local indices, long namespace tables
-    g = nsgen.gen_graph(rng, n_ns=rng.randint(10, 13) if wide else rng.randint(1, 3), n_nodes=rng.randint(12, 16) if wide else rng.randint(1, 7 if quick else 10), value_gen=value_gen)
+    # size: a document set with that many nodes (the number of distinct ids crosses the 8-bit boundaries)
+    if size: g = nsgen.gen_graph(rng, n_ns=2, n_nodes=size, hostile=False, with_values=False, value_gen=value_gen)
+    else: g = nsgen.gen_graph(rng, n_ns=rng.randint(10, 13) if wide else rng.randint(1, 3), n_nodes=rng.randint(12, 16) if wide else rng.randint(1, 7 if quick else 10), value_gen=value_gen)
     # one case in five: companion specifications parsed on their own - everything of the base namespace they name (types, parents, reference types) is undefined
     g.with_base = rng.random() >= 0.2
     g.split = rng.random() < 0.35
@@ -276,7 +285,8 @@ def run(ctx, prop):
     n_cases = {"quick": 45, "thorough": 900}[ctx.tier]
     try:
         for ci in range(n_cases):
-            g, ds = make_case(rng, ctx.quick())
+            # the third and fourth case are medium-sized: 128..255 and 256+ distinct NodeIds in one parse (ids beyond the range of the narrow integer types)
+            g, ds = make_case(rng, ctx.quick(), size={2: rng.randint(120, 200), 3: rng.randint(260, 300)}.get(ci))
             files, lay = render_set(ds, rng)
             origs = originals_of(g, ds)
             vts = [n["value"] for _, d, _ in ds for n in d["nodes"] if n.get("value")]
